@@ -232,15 +232,17 @@ def build_system_matrix(net, branch_pit, node_pit, heat_mode):
             unique_rows, row_counts = _sum_by_group_sorted(system_rows, np.ones_like(system_rows))
             row_counter[unique_rows + 1] += row_counts
             ptr = row_counter.cumsum()
-            system_matrix = csr_matrix((system_data, system_cols, ptr),
-                                       shape=(len_n + len_b + len_sl, len_n + len_b + len_sl))
+            shape = (len_n + len_b + len_sl, len_n + len_b + len_sl)
+            # only the structure is stored: the solver merges entries that are stored twice (e.g. those of a pressure
+            # controller) in place, so a stored matrix object would no longer fit the sorted data of the next iteration
             net["_internal_data"]["hydraulic_data_sorting"] = data_order
-            net["_internal_data"]["hydraulic_matrix"] = system_matrix
+            net["_internal_data"]["hydraulic_matrix"] = (system_cols, ptr, shape)
+            system_matrix = csr_matrix((system_data, system_cols.copy(), ptr.copy()), shape=shape)
     else:
         data_order = net["_internal_data"]["hydraulic_data_sorting"]
         system_data = system_data[data_order]
-        system_matrix = net["_internal_data"]["hydraulic_matrix"]
-        system_matrix.data = system_data
+        system_cols, ptr, shape = net["_internal_data"]["hydraulic_matrix"]
+        system_matrix = csr_matrix((system_data, system_cols.copy(), ptr.copy()), shape=shape)
 
     # load vector on the right side
     if not heat_mode:
